@@ -583,6 +583,10 @@ type RapidResult struct {
 // failed Go test; rapid's shrinker runs as usual and the last invocation of
 // prop is the minimal case.
 func (c *Ctx) Rapid(name string, checks int, salt int, prop func(*rapid.T)) RapidResult {
+	if only := os.Getenv("VERIF_ONLY_RUN"); only != "" && !strings.HasPrefix(name, only) {
+		// development aid: restrict a check to one of its generator families
+		return RapidResult{}
+	}
 	rapidMu.Lock()
 	defer rapidMu.Unlock()
 	mustSet("rapid.checks", strconv.Itoa(checks))
